@@ -785,19 +785,36 @@ _SWAP = {"Gt": "Lt", "Ge": "Le", "Lt": "Gt", "Le": "Ge", "Eq": "Eq", "Ne": "Ne"}
 
 def guard_cmp(body, blk):
     """the comparison that immediately guards `blk`, normalised to the relation that HOLDS when blk runs:
-    (switch_blk, op, lhs_operand, rhs_operand) or None"""
+    (switch_blk, op, lhs_operand, rhs_operand) or None.  Switches that do not decide whether blk runs (both edges
+    reach it: logging macros, cleanup flags) are skipped while climbing the dominator chain."""
     cur = idom(body, blk)
-    while cur is not None and body.term(cur)["t"] != "switch":
-        cur = idom(body, cur)
-    if cur is None:
-        return None
+    hops = 0
+    while cur is not None and hops < 64:
+        hops += 1
+        if body.term(cur)["t"] != "switch":
+            cur = idom(body, cur)
+            continue
+        g = _guard_at(body, cur, blk)
+        if g == "skip":
+            cur = idom(body, cur)
+            continue
+        return g
+    return None
+
+
+def _guard_at(body, cur, blk):
     t = body.term(cur)
+    succs = body.succ(cur)
+    reach = [s_ for s_ in succs if body.term(s_)["t"] != "unreachable" and (s_ == blk or blk in body.reachable_from(s_, avoid={cur}))]
+    live = [s_ for s_ in succs if body.term(s_)["t"] != "unreachable"]
+    if len(reach) == len(live) and len(live) > 1:
+        return "skip"     # every edge reaches blk: this switch does not guard it
     pl = op_place(t["on"])
     if pl is None or len(pl) != 1:
         return None
     neg = False
     loc = pl[0]
-    for _ in range(3):
+    for _ in range(4):
         ds = [(bb, jj, rv) for (bb, jj, rv) in body.defs_of(loc) if jj != "term"]
         if len(ds) != 1:
             return None
